@@ -140,6 +140,12 @@ class C14(Check):
                     edits['remove'] = [f'*{c0}', f'{c0}*']
                 if variables is not None and rng.random() < 0.5 and kind != 'add':
                     variables = None
+                if rng.random() < 0.4:
+                    # the derived operator re-declares one of the base's variables (plain value, declaration string or -
+                    # the form the base may use itself - a definition dict)
+                    variables = dict(variables or {})
+                    variables[c0] = rng.choice([7.5, {'vtype': 'constant', 'value': 7.5, 'dtype': 'float', 'shape': [1]},
+                                                {'vtype': 'constant', 'value': 7.5, 'dtype': 'float', 'shape': [1]}])
                 ops.append({'op': 'derive_operator', 'obj': 'T', 'node': node, 'edits': edits, 'variables': variables})
             elif k == 'deepcopy':
                 ops.append({'op': 'deepcopy', 'obj': 'T', 'as': f'D{j}'})
